@@ -57,6 +57,8 @@ func (e *Exec) vecArmFault(op string, n int) {
 	faiss.VerifFailNth(op, n)
 }
 
+func (e *Exec) vecFired(op string, n int) bool { return faiss.VerifCallCounts()[op] >= n }
+
 func (e *Exec) vecAfterFault() string {
 	faiss.VerifClearFaults()
 	c := settle()
